@@ -209,6 +209,33 @@ def gen_shadow():
     ]
 
 
+# ("err:closed" is known finding F37: logging.Handler.handleError only tolerates OSError, a closed sys.stderr gives
+#  ValueError, which leaves every pyflyby logger call - it is run as the finding's witness only)
+STDIO = ["out:flush", "out:closed", "out:none", "err:flush", "err:none"]
+
+
+def gen_stdio():
+    """the user's standard streams are awkward objects while pyflyby logs: stdout / stderr replaced by an object whose
+    flush() raises, by a closed file, by None; healthy auto-imports (pyflyby logs the import) and internal errors
+    (pyflyby logs the error), compared with the pyflyby-free shell under the same replacement"""
+    cases = []
+    k = 0
+    for kind in STDIO:
+        if kind in ("out:none", "err:none", "out:closed"):
+            # IPython.s own run_cell and error display do not work with such a stream: inspection and completion only
+            cases.append(mk("stdio", [{"op": "LoadExt"}, INSPECT, with_faults(INSPECT, [["SAnalysis", "KeyError"]]), CGLOBAL, CATTR], stdio=kind))
+            cases.append(mk("stdio", [{"op": "LoadExt"}, CATTR, with_faults(CGLOBAL, [["SDbLoad", "OSError"]]), INSPECT, CGLOBAL_USER], stdio=kind))
+            continue
+        for tgt in (RUN_IMPORT, INSPECT, CGLOBAL):
+            site = IN_SAFE_CALL[k % len(IN_SAFE_CALL)]
+            cls = [c for c in EXC_CLASSES if c not in ("ValueError", "OSError")][k % (len(EXC_CLASSES) - 2)]
+            k += 1
+            cases.append(mk("stdio", [{"op": "LoadExt"}, tgt, with_faults(tgt, [[site, cls]]), RUN_IMPORT, CGLOBAL_USER], stdio=kind,
+                            bad_exc="CustomError"))
+        cases.append(mk("stdio", [{"op": "LoadExt"}, RUN_BAD, RUN_TWO, CATTR, RUN_PLAIN], stdio=kind, bad_exc="CustomError"))
+    return cases
+
+
 def gen_matrix(levels=("INFO",)):
     """every hook x fault site x {an Exception subclass (rotating), SyntaxError, a BaseException (rotating)}"""
     cases = []
@@ -252,7 +279,8 @@ def gen_random(ctx, n):
             if o.get("faults") and r.random() < .3 and len(o.get("names", [])) <= 1:
                 o["faults"] = [f for f in o["faults"] if f[0] != "SNeedsImport"] + \
                               [["SNeedsImport", r.choice(EXC_CLASSES + ["SyntaxError"]), r.randint(1, 6)]]
-        cases.append(mk("random", ops, level, jedi=r.random() < .1, bad_exc=bad, i=i, bad_finder=r.random() < .15))
+        cases.append(mk("random", ops, level, jedi=r.random() < .1, bad_exc=bad, i=i, bad_finder=r.random() < .15,
+                        stdio=(r.choice(["out:flush", "err:flush"]) if r.random() < .2 and level != "DEBUG" else None)))
     return cases
 
 
@@ -353,7 +381,13 @@ def is_F36(case, clause, detail):
     return False
 
 
-CLASSIFIERS = {"is_F36": is_F36}
+def is_F37(case, clause, detail):
+    """known finding F37: sys.stderr is a closed file: every pyflyby logger call raises ValueError (logging's
+    handleError only tolerates OSError), also the logger.error inside _safe_call's except block, before disable()"""
+    return case.get("stdio") == "err:closed"
+
+
+CLASSIFIERS = {"is_F36": is_F36, "is_F37": is_F37}
 
 
 # ---------------------------------------------------------------------------------------------
@@ -375,14 +409,14 @@ def evaluate(ctx, cases, results):
             continue
         impl, ref = r["impl"], r["ref"]
         a, b = c14.canon_impl(impl, c), c14.canon_model(mtr[ci], c)
-        d = c14.first_diff(a, b)
+        d = c14.first_diff(a, b) if c.get("stdio") != "err:closed" else None      # F37: outside the model's domain
         if d:
             ctx.disagreement("session trace under faults", c, d["impl"], dict(model=d["model"], step=d["step"], fields=d["fields"]))
             legacy.append(ci)
         for clause, detail in oracle(c, impl, ref):
             hit = [k for k in ctx.open_findings() if CLASSIFIERS.get(k.get("classifier"), lambda *a: False)(c, clause, detail)]
             if hit:
-                ctx.known_hit(hit[0]["id"], "attribute completion under an internal error in auto_eval returns [] instead of IPython's matches: " + detail[:160])
+                ctx.known_hit(hit[0]["id"], hit[0]["what"][:120] + ": " + detail[:160])
             else:
                 ctx.violation(clause, c, detail)
         nf = sum(1 for o in c["ops"] if o.get("faults"))
@@ -442,7 +476,7 @@ def run(ctx):
         "the import database and the modules (one importable, one raising at import) are written by the harness",
     ]
     ctx.notes["trusted_base"] = ["IPython 9.17.1 as the environment of the hooks (modelled, not verified)"]
-    always = gen_core() + gen_episodes() + gen_awkward() + gen_natural() + gen_stmt() + gen_finder() + gen_shadow()
+    always = gen_core() + gen_episodes() + gen_awkward() + gen_natural() + gen_stmt() + gen_finder() + gen_shadow() + gen_stdio()
     matrix = gen_matrix() if ctx.quick else gen_matrix(("INFO", "DEBUG")) + gen_stmt_full()
     if ctx.quick:
         r = cm.rng(ctx.seed, "c13-matrix")
